@@ -3,6 +3,8 @@ package rules
 import (
 	"fmt"
 	"go/token"
+	"go/types"
+	"strings"
 
 	"fpcheck/internal/core"
 
@@ -444,7 +446,15 @@ func runC14(c *core.Ctx) {
 		return f, role
 	}
 	dn, dnEffect := thinImpl(p.Method(p.Fpgo, "CorDef", "DoNotation"), 1)
-	if dn == nil || core.ClosureContaining(dn, callsDone) == nil {
+	if h, launch := c14awaitCombinator(p, dn); h != nil {
+		// continuation-passing form: `return await(func(deliver func(T)) { cor = CorNew(func() { deliver(effect(cor)) }); cor.Start() })`
+		c.Analysed(core.FuncName(dn), core.FuncName(h))
+		ok, detail := c14combinatorShape(p, h)
+		if ok {
+			ok, detail = c14launchDoNotation(p, dn, launch, dnEffect)
+		}
+		c.Check(ok, "R2", "CorDef.DoNotation", p.Pos(dn.Pos()), detail, detail)
+	} else if dn == nil || core.ClosureContaining(dn, callsDone) == nil {
 		c.Unknown("R2", "CorDef.DoNotation", "-", "method or closure not found")
 	} else {
 		c.Analysed(core.FuncName(dn))
@@ -461,7 +471,14 @@ func runC14(c *core.Ctx) {
 		c.Check(ok, "R2", "CorDef.DoNotation", p.Pos(dn.Pos()), detail, detail)
 	}
 	yio, _ := thinImpl(p.Method(p.Fpgo, "CorDef", "YieldFromIO"), 1)
-	if yio == nil || core.ClosureContaining(yio, callsDone) == nil {
+	if h, launch := c14awaitCombinator(p, yio); h != nil {
+		c.Analysed(core.FuncName(yio), core.FuncName(h))
+		ok, detail := c14combinatorShape(p, h)
+		if ok {
+			ok, detail = c14launchSubscribe(p, launch)
+		}
+		c.Check(ok, "R2", "CorDef.YieldFromIO", p.Pos(yio.Pos()), detail, detail)
+	} else if yio == nil || core.ClosureContaining(yio, callsDone) == nil {
 		c.Unknown("R2", "CorDef.YieldFromIO", "-", "method or closure not found")
 	} else {
 		c.Analysed(core.FuncName(yio))
@@ -494,9 +511,21 @@ func c14isSignal(ins ssa.Instruction) bool {
 // (wg.Wait() / a receive on that channel) and only then returns the result; the closure assigns (isAssign) and then
 // raises the signal (wg.Done() / close or send on the same channel), each once.
 func c14waitShape(p *core.Prog, parent, cl *ssa.Function, isAssign func(ssa.Instruction) bool, trigger string) (bool, string) {
+	return c14waitShapeT(p, parent, cl, isAssign, trigger, func(call *ssa.Call) bool {
+		g := core.Callee(&call.Call)
+		return g != nil && (core.FuncName(g) == trigger || core.StdCallee(&call.Call) == trigger)
+	})
+}
+
+func c14waitShapeT(p *core.Prog, parent, cl *ssa.Function, isAssign func(ssa.Instruction) bool, trigger string, isTrig func(*ssa.Call) bool) (bool, string) {
 	adds := callsOf(parent, "sync.(WaitGroup).Add")
 	waitCalls := callsOf(parent, "sync.(WaitGroup).Wait")
-	trig := callsOf(parent, trigger)
+	var trig []*ssa.Call
+	core.Instrs(parent, func(ins ssa.Instruction) {
+		if call, ok := ins.(*ssa.Call); ok && isTrig(call) {
+			trig = append(trig, call)
+		}
+	})
 	var wait ssa.Instruction
 	var armed ssa.Instruction
 	var sigChan ssa.Value // channel form: the MakeChan the waiter receives from
@@ -781,4 +810,167 @@ func (s c14send) requestIs(target, caller, v ssa.Value) string {
 		return fmt.Sprintf("the request is not {cor: caller, val: in} (cor ok=%v, val ok=%v): answers go to the wrong coroutine or carry the wrong value", corOK, valOK)
 	}
 	return ""
+}
+
+// c14awaitCombinator: every return of f yields the result of one call h(L) where h is an unexported function of the
+// repository whose single parameter is a function and L is a closure built in f (the continuation-passing form of
+// "arm, start, wait, return the delivered value").
+func c14awaitCombinator(p *core.Prog, f *ssa.Function) (*ssa.Function, *ssa.Function) {
+	if f == nil {
+		return nil, nil
+	}
+	var h, launch *ssa.Function
+	ok := true
+	n := 0
+	core.Instrs(f, func(ins ssa.Instruction) {
+		r, isR := ins.(*ssa.Return)
+		if !isR || r.Block() == f.Recover {
+			return
+		}
+		n++
+		vals := core.RetVals(r)
+		if len(vals) != 1 {
+			ok = false
+			return
+		}
+		call, isC := core.Resolve(vals[0]).(*ssa.Call)
+		if !isC || len(call.Call.Args) != 1 {
+			ok = false
+			return
+		}
+		g := core.Callee(&call.Call)
+		mc, isMC := core.Resolve(call.Call.Args[0]).(*ssa.MakeClosure)
+		if g == nil || !p.InRepo(g) || len(g.Blocks) == 0 || g.Object() == nil || g.Object().Exported() || len(g.Params) != 1 || !isMC {
+			ok = false
+			return
+		}
+		if _, isSig := g.Params[0].Type().Underlying().(*types.Signature); !isSig {
+			ok = false
+			return
+		}
+		if h != nil && h != g {
+			ok = false
+		}
+		h, launch = g, mc.Fn.(*ssa.Function)
+	})
+	if !ok || n != 1 || h == nil {
+		return nil, nil
+	}
+	return h, launch
+}
+
+// c14combinatorShape: h arms a one-shot signal, calls its parameter exactly once with a closure that stores its own
+// argument as the result and then raises the signal (each once), waits, and only then returns.
+func c14combinatorShape(p *core.Prog, h *ssa.Function) (bool, string) {
+	dcl := core.ClosureContaining(h, func(ins ssa.Instruction) bool { return c14isSignal(ins) })
+	if dcl == nil || len(dcl.Params) != 1 {
+		return false, "the waiting helper has no delivery closure that raises the signal"
+	}
+	return c14waitShapeT(p, h, dcl, func(ins ssa.Instruction) bool {
+		st, isS := ins.(*ssa.Store)
+		return isS && st.Val == ssa.Value(dcl.Params[0])
+	}, "launch(deliver)", func(call *ssa.Call) bool {
+		if core.Callee(&call.Call) != nil || call.Call.IsInvoke() || core.Resolve(call.Call.Value) != ssa.Value(h.Params[0]) || len(call.Call.Args) != 1 {
+			return false
+		}
+		mc, isMC := core.Resolve(call.Call.Args[0]).(*ssa.MakeClosure)
+		return isMC && mc.Fn == ssa.Value(dcl)
+	})
+}
+
+// c14launchDoNotation: the launch closure builds one coroutine whose effect delivers effect(cor) exactly once, and
+// starts it exactly once.
+func c14launchDoNotation(p *core.Prog, dn, launch *ssa.Function, dnEffect *ssa.Parameter) (bool, string) {
+	if len(launch.Params) != 1 {
+		return false, "the launch closure does not take the delivery function"
+	}
+	smin, smax := core.PathCount(launch, func(ins ssa.Instruction) int {
+		if call, ok := ins.(*ssa.Call); ok {
+			if g := core.Callee(&call.Call); g != nil && core.FuncName(g) == "fpgo.CorDef.Start" {
+				return 1
+			}
+		}
+		return 0
+	}, nil)
+	if smin != 1 || smax != 1 {
+		return false, fmt.Sprintf("the coroutine is started %d..%d times (must be exactly once)", smin, smax)
+	}
+	// the effect closure of the coroutine: the one closure of launch that calls the delivery function
+	var eff *ssa.Function
+	for _, a := range launch.AnonFuncs {
+		a := a
+		core.Instrs(a, func(ins ssa.Instruction) {
+			if call, ok := ins.(*ssa.Call); ok && core.Callee(&call.Call) == nil && !call.Call.IsInvoke() {
+				if capturedBinding(launch, a, core.Path(call.Call.Value)) == ssa.Value(launch.Params[0]) {
+					eff = a
+				}
+			}
+		})
+	}
+	if eff == nil {
+		return false, "no coroutine effect that delivers its result found"
+	}
+	okArg := true
+	dmin, dmax := core.PathCount(eff, func(ins ssa.Instruction) int {
+		call, ok := ins.(*ssa.Call)
+		if !ok || core.Callee(&call.Call) != nil || call.Call.IsInvoke() || capturedBinding(launch, eff, core.Path(call.Call.Value)) != ssa.Value(launch.Params[0]) {
+			return 0
+		}
+		// deliver(effect(cor)): the delivered value is the result of the user's effect
+		inner, isC := core.Resolve(call.Call.Args[0]).(*ssa.Call)
+		if !isC || core.Callee(&inner.Call) != nil {
+			okArg = false
+			return 1
+		}
+		v1 := capturedBinding(launch, eff, core.Path(inner.Call.Value))
+		if v1 == nil || capturedBinding(dn, launch, core.Path(v1)) != ssa.Value(dnEffect) {
+			okArg = false
+		}
+		return 1
+	}, nil)
+	if dmin != 1 || dmax != 1 || !okArg {
+		return false, fmt.Sprintf("the coroutine's effect does not deliver effect(cor) exactly once (%d..%d deliveries, value ok=%v)", dmin, dmax, okArg)
+	}
+	// the effect closure is what the coroutine is built from
+	built := false
+	core.Instrs(launch, func(ins ssa.Instruction) {
+		if call, ok := ins.(*ssa.Call); ok && len(call.Call.Args) >= 1 {
+			if g := core.Callee(&call.Call); g != nil && strings.HasPrefix(g.Name(), "CorNew") {
+				if mc, isMC := core.Resolve(call.Call.Args[len(call.Call.Args)-1]).(*ssa.MakeClosure); isMC && mc.Fn == ssa.Value(eff) {
+					built = true
+				}
+			}
+		}
+	})
+	if !built {
+		return false, "the delivering closure is not the effect of the coroutine that is started"
+	}
+	return true, "await(launch): arm → launch once → deliver assigns then signals → wait dominates the return; launch starts one coroutine whose effect delivers effect(cor) once"
+}
+
+// c14launchSubscribe: the launch closure subscribes exactly once, with the delivery function as OnNext.
+func c14launchSubscribe(p *core.Prog, launch *ssa.Function) (bool, string) {
+	if len(launch.Params) != 1 {
+		return false, "the launch closure does not take the delivery function"
+	}
+	okNext := false
+	smin, smax := core.PathCount(launch, func(ins ssa.Instruction) int {
+		call, ok := ins.(*ssa.Call)
+		if !ok {
+			return 0
+		}
+		if g := core.Callee(&call.Call); g == nil || core.FuncName(g) != "fpgo.MonadIODef.Subscribe" {
+			return 0
+		}
+		if len(call.Call.Args) == 2 {
+			if v := core.LiteralField(call.Call.Args[1], "OnNext"); v != nil && core.Resolve(v) == ssa.Value(launch.Params[0]) {
+				okNext = true
+			}
+		}
+		return 1
+	}, nil)
+	if smin != 1 || smax != 1 || !okNext {
+		return false, fmt.Sprintf("the MonadIO is not subscribed exactly once with the delivery function as OnNext (%d..%d subscriptions, OnNext ok=%v)", smin, smax, okNext)
+	}
+	return true, "await(launch): arm → launch once → deliver assigns then signals → wait dominates the return; launch subscribes once with OnNext = deliver"
 }
